@@ -684,7 +684,7 @@ def run_shard(ctx):
                 pass
         return t
 
-    ctx.run_given(mk, ctx.budget(60000, 900000), salt=1)
+    ctx.run_given(mk, ctx.budget(60000, 500000), salt=1)
 
 
 def _examples(strategy):
